@@ -415,14 +415,23 @@ func storedToField(p *Prog, v ssa.Value, field string, depth int) bool {
 	if refs == nil || depth > 3 {
 		return false
 	}
-	n := 0
+	n, stores, lens := 0, 0, 0
 	for _, r := range *refs {
 		if _, ok := r.(*ssa.DebugRef); ok {
 			continue
 		}
 		n++
 		if _, ok := fieldStore(r, field); ok {
+			stores++
 			continue
+		}
+		// the length / capacity of the value that is also stored (join := append(dsc.join, x);
+		// dsc.join = join; if len(join) < size) makes no second reference
+		if call, ok := r.(*ssa.Call); ok {
+			if bi, isB := call.Call.Value.(*ssa.Builtin); isB && (bi.Name() == "len" || bi.Name() == "cap") {
+				lens++
+				continue
+			}
 		}
 		if ct, ok := r.(*ssa.ChangeType); ok && storedToField(p, ct, field, depth+1) {
 			continue
@@ -444,7 +453,7 @@ func storedToField(p *Prog, v ssa.Value, field string, depth int) bool {
 		}
 		return false
 	}
-	return n > 0
+	return n > 0 && (lens == 0 || stores > 0)
 }
 
 // ---------------------------------------------------------------- C09 / C10 shared
